@@ -164,12 +164,15 @@ pub enum Fault {
     BadPos,
     /// VCF line with GT `0/x`
     BadGt,
-    /// raw BCF stream that ends inside a record (at least 8 bytes into it)
+    /// raw BCF stream that ends inside a record (one byte into it or more)
     TruncatedBcf,
     /// the same truncated BCF stream, BGZF-compressed (the BGZF layer itself is intact)
     TruncatedBgzfBcf,
     /// VCF text that ends inside a record line, before the FORMAT column
     TruncatedVcfLine,
+    /// a BGZF file (BCF or VCF inside) that ends inside the compressed payload of a block, as an
+    /// interrupted copy leaves it
+    TruncatedBgzfBlock,
 }
 
 #[derive(Clone, Debug, Serialize, Deserialize)]
@@ -185,7 +188,7 @@ fn sweep_strategy() -> impl Strategy<Value = SweepCase> {
     (
         base_strategy(8),
         container_strategy(),
-        prop_oneof![2 => Just(Fault::Ploidy), 1 => Just(Fault::TruncatedColumns), 1 => Just(Fault::BadPos), 1 => Just(Fault::BadGt), 1 => Just(Fault::TruncatedBcf), 1 => Just(Fault::TruncatedBgzfBcf), 1 => Just(Fault::TruncatedVcfLine)],
+        prop_oneof![2 => Just(Fault::Ploidy), 1 => Just(Fault::TruncatedColumns), 1 => Just(Fault::BadPos), 1 => Just(Fault::BadGt), 1 => Just(Fault::TruncatedBcf), 1 => Just(Fault::TruncatedBgzfBcf), 1 => Just(Fault::TruncatedVcfLine), 2 => Just(Fault::TruncatedBgzfBlock)],
         prop::bool::weighted(0.5),
     )
         .prop_map(|((cs, map), container, fault, strict)| SweepCase {
@@ -262,6 +265,42 @@ fn eval_sweep(ctx: &Ctx, case: &SweepCase) -> Verdict {
                 let r = &cs.records[first];
                 (run, argv, Some((cs.contigs[r.contig].clone(), r.pos)))
             }
+            Fault::TruncatedBgzfBlock => {
+                // one block per ~4 records so that the cut may fall in a first, middle or last block
+                let as_bcf = (n + at) % 2 == 0;
+                // blocks end at record boundaries, as bcftools and bgzip-by-line lay them out (a block
+                // that starts with a record's length field is where a swallowed EOF would hide)
+                let (raw, cuts) = if as_bcf {
+                    let (raw, offsets) = crate::gen::bcf::to_bcf(&case.cs);
+                    let mut bounds: Vec<usize> = vec![0];
+                    bounds.extend(offsets.iter().step_by(1 + at % 3).copied());
+                    bounds.push(raw.len());
+                    bounds.dedup();
+                    let sizes: Vec<u32> = bounds.windows(2).map(|w| (w[1] - w[0]).min(65_000) as u32).filter(|s| *s > 0).collect();
+                    (raw, crate::gen::bgzf::Cuts::Sizes(sizes))
+                } else {
+                    (case.cs.to_vcf().into_bytes(), crate::gen::bgzf::Cuts::LinePerBlock)
+                };
+                let layout = crate::gen::bgzf::Layout { cuts, ..crate::gen::bgzf::Layout::plain() };
+                let bytes = crate::gen::bgzf::compress(&raw, &layout).0;
+                // walk the blocks; cut inside the payload of the block chosen by `at`
+                let mut starts = Vec::new();
+                let mut p = 0usize;
+                while p + 18 <= bytes.len() {
+                    let bsize = u16::from_le_bytes([bytes[p + 16], bytes[p + 17]]) as usize + 1;
+                    if bsize > 28 {
+                        starts.push((p, bsize));
+                    }
+                    p += bsize;
+                }
+                if starts.is_empty() {
+                    continue;
+                }
+                let (bstart, bsize) = starts[at % starts.len()];
+                let cut = bstart + 18 + (at * 37 + n) % (bsize - 18);
+                let (run, argv) = run_create_bytes(ctx, &dir, "c10s", &case.cs, &bytes[..cut], if as_bcf { "bcf" } else { "vcf.gz" }, &CreateOpts { threads: if at % 3 == 0 { Some(1) } else { None }, ..opts.clone() }, Transport::Path);
+                (run, argv, None)
+            }
             Fault::TruncatedBcf | Fault::TruncatedBgzfBcf | Fault::TruncatedVcfLine => {
                 // the stream ends inside record `at` (needs at least one record; `at` indexes it)
                 if n == 0 || at >= n {
@@ -285,8 +324,9 @@ fn eval_sweep(ctx: &Ctx, case: &SweepCase) -> Verdict {
                         let (raw, offsets) = crate::gen::bcf::to_bcf(&case.cs);
                         let start = offsets[at];
                         let end = if at + 1 < n { offsets[at + 1] } else { raw.len() };
-                        let span = end - start - 8;
-                        let cut = start + 8 + ((case.cs.records[at].pos as usize).wrapping_mul(31) + at) % span;
+                        // anywhere inside the record, from one byte in (also inside its length fields)
+                        let span = end - start - 1;
+                        let cut = start + 1 + ((case.cs.records[at].pos as usize).wrapping_mul(31) + at) % span;
                         let cut = if (case.cs.records[at].pos + at as u64) % 5 == 0 { end - 1 } else { cut };
                         let truncated = raw[..cut].to_vec();
                         if case.fault == Fault::TruncatedBgzfBcf {
@@ -391,7 +431,7 @@ pub fn check(ctx: &Ctx) -> Check {
         }),
         Box::new(RandomPart {
             name: "fault-sweep",
-            rule: "a fault (non-diploid genotype in a selected sample in any container; VCF line with truncated columns, non-numeric POS, GT `0/x`; a raw or BGZF-compressed BCF stream ending inside the record; VCF text ending inside the record line) placed at EVERY record position 0..=N of generated call sets with skippable and countable records before and after, with and without --strict: exit != 0, diagnostic, empty stdout; ploidy faults must name contig and position of the first failing record; under --strict (half of the cases) a skippable record before the fault must be the one named, whatever kind of fault follows it; non-trivial = a fault at a position > 0",
+            rule: "a fault (non-diploid genotype in a selected sample in any container; VCF line with truncated columns, non-numeric POS, GT `0/x`; a raw or BGZF-compressed BCF stream ending inside the record; VCF text ending inside the record line; a BGZF file, BCF or VCF inside, ending inside the compressed payload of a first, middle or last block, read with one thread or the default four) placed at EVERY record position 0..=N of generated call sets with skippable and countable records before and after, with and without --strict: exit != 0, diagnostic, empty stdout; ploidy faults must name contig and position of the first failing record; under --strict (half of the cases) a skippable record before the fault must be the one named, whatever kind of fault follows it; non-trivial = a fault at a position > 0",
             cases: ctx.tier.pick(800, 20_000),
             strategy: Box::new(|| sweep_strategy().boxed()),
             eval: Box::new(eval_sweep),
